@@ -109,6 +109,14 @@ func sendRequestToTarget(client *http.Client, req *http.Request, httpsDefault bo
 	}
 	slog.Debug("Sent request to target", "url", req.URL, "status", resp.Status)
 
+	if resp.StatusCode < 100 {
+		// The client library lets any three digits through ("HTTP/1.1 099 X"). Below 100 it is no status code:
+		// it cannot be written to our client (net/http panics on it), so the origin's answer counts as failed.
+		resp.Body.Close()
+		slog.Error("Target answered with an invalid status code", "url", req.URL, "status", resp.Status)
+		return nil, fmt.Errorf("%w: invalid status code %d", ErrSendRequestFailed, resp.StatusCode)
+	}
+
 	// Remove any hop-by-hop headers in the response that should not be forwarded to the client.
 	removeHopByHopHeaders(resp.Header)
 
